@@ -392,3 +392,35 @@ SPECS['C12'] = dict(queries=c12, assumptions=SPECS['C05']['assumptions'] + [
     "concurrent queries: values are chosen so that list order is numeric order; the reader checks order, membership and that elements present for the whole "
     "traversal are visited; final contents must equal the sequential result of the writers' operations (sum / order / erased value absent)"],
     outside=["insert/emplace(pos)/clear (declared, never defined)", "reverse iteration (operator-- does not compile)", "more than 2 writers, 1 reader"])
+
+
+# ------------------------------------------------------------------------------------------------ C13
+def c13(tier):
+    qs = []
+    TU = ','.join(f'vp_tab_{f}.{k}:10' for f, k in (('find', 0), ('add', 0), ('count', 0)))
+    def sq(name, nops, std=False, **kw):
+        return mk(name, 'c13_rcualloc.cpp', [], 1, seq=['vp_seq'], cover=1, defines=[f'NOPS={nops}', 'T1_OP2=0'] + (['STD_ALLOC'] if std else []),
+                  unwind=7, unwindset=TU, checks='pointer', **kw)
+    def cq(name, o1, o1b, o2, rounds, std=False, **kw):
+        return mk(name, 'c13_rcualloc.cpp', [('T1', 'vp_t1'), ('T2', 'vp_t2')], rounds, setup='vp_setup2', final='vp_final', cover=3,
+                  defines=[f'T1_OP={o1}', f'T1_OP2={o1b}', f'T2_OP={o2}'] + (['STD_ALLOC'] if std else []), unwind=7, unwindset=TU,
+                  checks='pointer', opts={'yield_blocks': False}, **kw)
+    if tier == 'quick':
+        qs.append(sq('rcualloc_seq3_counting', 3, timeout=900))
+        qs.append(sq('rcualloc_seq3_stdalloc', 3, std=True, timeout=900))
+        qs.append(cq('rcualloc_2t_handle_erase_R2', 0, 0, 2, 2, timeout=900))
+    else:
+        qs.append(sq('rcualloc_seq5_counting', 5, timeout=3000))
+        qs.append(sq('rcualloc_seq4_stdalloc', 4, std=True, timeout=3000))
+        qs.append(cq('rcualloc_2t_handle_erase_R3', 0, 0, 2, 3, timeout=3000))
+        qs.append(cq('rcualloc_2t_push_erase_R3', 1, 0, 2, 3, timeout=3000))
+        qs.append(cq('rcualloc_2t_erase_handles_R3', 2, 3, 0, 3, timeout=3000))
+    return qs
+
+
+SPECS['C13'] = dict(queries=c13, assumptions=COMMON_ASSUMPTIONS + [
+    "element type E has constructors/destructor that maintain a ghost table of live objects (destroying a non-live, null or already destroyed object is an assertion failure); "
+    "CountingAlloc<T> (rebound by the list to node and bookkeeping-record types) keeps a table of allocated blocks and asserts on deallocate of anything else",
+    "sequential query: 3 (5) symbolic operations out of {take+touch+release a handle, push_back, erase first, two nested handles}, then the list is destroyed and both tables must be empty",
+    "std::allocator variant: same element type, default allocator (operator delete(nullptr) is legal there; destroying a never-constructed E is not)"],
+    outside=["more than 5 operations / 2 threads", "allocators with fancy pointers or state", "exceptions thrown by element constructors"])
